@@ -234,3 +234,35 @@ func (mm *monoMon) step(cx *clusterRun) {
 func (mm *monoMon) finish(cx *clusterRun) { cx.c.Stat("rank_checks", mm.checks) }
 
 func joinStrs(xs []string) string { return strings.Join(xs, ",") }
+
+// ---------------------------------------------------------------- a running node defends itself (C02 cluster form)
+
+type selfMon struct {
+	lastInc map[*Memberlist]uint32
+	checks  int64
+}
+
+func newSelfMon() *selfMon { return &selfMon{lastInc: map[*Memberlist]uint32{}} }
+
+func (sm *selfMon) step(cx *clusterRun) {
+	for _, n := range cx.cl.nodes {
+		if n.m == nil || !n.running() {
+			continue
+		}
+		m := n.m
+		inc := m.incarnation.Load()
+		if last, ok := sm.lastInc[m]; ok && inc < last {
+			cx.c.Violate("incarnation-decreased", "", n.name, "%s: own incarnation went from %d to %d", n.name, last, inc)
+		}
+		sm.lastInc[m] = inc
+		if n.leftCalled {
+			continue // the statement excludes a node that has called Leave
+		}
+		sm.checks++
+		v := n.view(n.name)
+		if !v.Present || v.State != StateAlive {
+			cx.c.Violate("self-not-alive", "", n.name, "%s is running and has not called Leave but records itself as %s", n.name, v)
+		}
+	}
+}
+func (sm *selfMon) finish(cx *clusterRun) { cx.c.Stat("self_checks", sm.checks) }
